@@ -32,7 +32,7 @@ def gen_call(tape, pool_size, term_of, ctx_symbols, richgen, ctx):
              (1, "logic"), (1, "types"), (3, "size"), (2, "serialize"), (2, "to_smtlib"), (1, "nnf"),
              (1, "cnf"), (1, "prenex"), (1, "aig"), (1, "get_type"), (2, "build"), (1, "fresh"),
              (1, "model_value"), (1, "parse_smtlib"), (1, "parse_hr"), (1, "qelim")]
-    kinds = kinds + [(2, "substitute_shared")]
+    kinds = kinds + [(2, "substitute_shared"), (2, "parse_long")]
     k = tape.weighted(kinds, "call.kind")
     i = tape.draw(pool_size, "call.formula")
     spec = {"call": k, "i": i}
@@ -54,6 +54,10 @@ def gen_call(tape, pool_size, term_of, ctx_symbols, richgen, ctx):
             except ValueError:
                 pass
         spec["update"] = pairs
+    if k == "parse_long":
+        # a script (optionally with set-logic) parsed by the client's long-lived SmtLibParser
+        spec["logic"] = tape.choice([None, None, "QF_LRA", "QF_LIA", "QF_BV", "QF_UFLIRA", "LRA"], "parse_long.logic")
+        spec["numerals"] = tape.chance(1, 2, "parse_long.numerals")
     if k == "substitute":
         subs = rg.subterms(t)
         pairs = []
@@ -169,6 +173,28 @@ def perform(env, spec, f, term, user_symbols):
         return EagerModel(assign, env).get_value(f)
     if k == "parse_smtlib":
         return parse_smtlib_term(env, bp.to_smtlib(term), bp.symbols_of(term))
+    if k == "parse_long":
+        parser = spec["_parser"]
+        syms = bp.symbols_of(term)
+        lines = []
+        if spec.get("logic"):
+            lines.append("(set-logic %s)" % spec["logic"])
+        bound = {n for x in _subterms(term) if x[0] in bp.QUANT for n, _ in x[1]}
+        for n, s_ in syms.items():
+            if n in bound:
+                continue
+            if bp.is_fun(s_):
+                lines.append("(declare-fun %s (%s) %s)" % (bp.smt_symbol(n), " ".join(bp.smt_sort(a) for a in s_[1]),
+                                                           bp.smt_sort(s_[2])))
+            else:
+                lines.append("(declare-fun %s () %s)" % (bp.smt_symbol(n), bp.smt_sort(s_)))
+        lines.append("(assert %s)" % bp.to_smtlib(term))
+        if spec.get("numerals"):
+            # bare numerals: their type (Int or Real) is decided by the logic of THIS script
+            lines.append("(declare-fun nn_i () Int)")
+            lines.append("(assert (or (< (+ 1 2) 4) (> nn_i 7)))")
+        script = parser.get_script(StringIO("\n".join(lines) + "\n"))
+        return [script.get_last_formula(mgr=env.formula_manager), len(script.commands)]
     if k == "parse_hr":
         from pysmt.parsing import HRParser
         return HRParser(env).parse(f.serialize())
@@ -178,6 +204,15 @@ def perform(env, spec, f, term, user_symbols):
         cls = ShannonQuantifierEliminator if spec.get("algo") == "shannon" else SelfSubstitutionQuantifierEliminator
         return cls(env, BOOL_LOGIC).eliminate_quantifiers(f)
     raise ValueError("unknown call %r" % k)
+
+
+def _subterms(t, acc=None):
+    if acc is None:
+        acc = []
+    acc.append(t)
+    for a in bp.args_of(t):
+        _subterms(a, acc)
+    return acc
 
 
 def parse_smtlib_term(env, text, symbols):
